@@ -59,6 +59,25 @@ CHECKS.update({
                 ref="DESIGN.md §5 C17"),
 })
 
+CHECKS.update({
+    "C04": dict(technique="configuration-matrix monitor: the C01/C02/C03/C09 reference-model monitors re-executed in every cell of {asm, prefer_intrinsics, pure} x forced {portable, SSE2, SSE4.1, AVX2, AVX-512} (hook H1) x {full, default, no-default features} x {debug, release}; thorough tier cross-checks the hook against the stock no_* feature builds",
+                text="Every cell is compared with the same independent model, so agreement is N-way; evidence lists per cell the platform Platform::detect() reported and the build-script cfgs.",
+                ref="DESIGN.md §5 C04"),
+    "C08": dict(technique="twin-execution monitor under scripted and real schedulers: hook H2 ScriptedJoin (per-split left-first/right-first/threads, injected delays, exhaustive 3^k assignments for small trees), real rayon pools 1..16, C TBB link seam implemented with scripted pthreads; ThreadSanitizer on Rust (-Zbuild-std) and C; Miri with tree borrows and per-shard scheduler seeds",
+                text="Serial and parallel hashers fed the same bytes must agree on every observation and with specmodel; the event log yields distinct schedule signatures and true-overlap counts; race detectors watch the same workloads.",
+                ref="DESIGN.md §5 C08",
+                note=BASE_NOTE + " c/blake3_tbb.cpp itself cannot be compiled here (oneTBB absent): the property is decided for blake3.c's side of the seam and the seam's contract."),
+    "C12": dict(technique="black-box CLI monitor on the real b3sum binary (built from the unmodified main.rs) with pyspec as oracle: hashing invocations over flag combinations, --check invocations against a model of generated checkfiles (report lines, failure count, exit status)",
+                text="Thousands of invocations; stdout is compared byte for byte with the model's S[seek..seek+length]; for --check the expected OK/FAILED lines in order, the failure count and exit status 0 iff no bad entry.",
+                ref="DESIGN.md §5 C12"),
+    "C13": dict(technique="in-process monitors over the real parse_check_line/filepath_to_string (include! of the unmodified source): every single-character and byte-length-preserving mutation of valid lines + random lines against an existential reference parser; round trip and injectivity over hostile OS path bytes",
+                text="A parse result must be one of the decompositions the documented format allows, never a panic; printed lines of representable paths must parse back to the same bytes and hash, unrepresentable paths must be rejected, no two paths may collide.",
+                ref="DESIGN.md §5 C13"),
+    "C18": dict(technique="fresh-process barrier workloads: N threads (2..64) whose first calls race on CPU-feature detection, per-thread forced platforms (thread-local hook), every result vs specmodel; C threaded executor against libblake3.so with a writable-segment diff monitor; ThreadSanitizer (Rust and C) and Miri with scheduler seeds",
+                text="Each thread's histories must give exactly the results they give alone; the only bytes of the C library's writable segments that may change are the detection cache.",
+                ref="DESIGN.md §5 C18"),
+})
+
 NOT_YET = {}
 
 def main():
